@@ -443,7 +443,8 @@ class ModbusCountersHandler(object):
         :returns: A byte with each bit representing each counter
         '''
         count, result = 0x01, 0x00
-        for i in itervalues(self.__data):
+        # one bit per diagnostic counter; the event counter is not one of them
+        for i in list(itervalues(self.__data))[:8]:
             if i != 0x00: result |= count
             count <<= 1
         return result
